@@ -750,13 +750,34 @@ def rule_trim(ctx, trim=True):
         return
     # the splitter is chosen by the DLM value exactly as given (read() compares that value exactly when it picks its policies)
     dparam = ff.params()[0]
-    for r_ in [x for x in walk_shallow(ff.node) if isinstance(x, ast.Return) and x.value is not None]:
-        v = r_.value
-        exact = isinstance(v, ast.Subscript) and isinstance(v.slice, ast.Name) and v.slice.id == dparam
-        ctx.check(exact, "DATA.SPLIT", "reader.define_line_splitter#lookup", ff, r_,
-                  "the splitter is table[<DLM value>]: an unknown DLM is an error, a known one is matched exactly",
-                  "the splitter is chosen with `%s`: the DLM value is normalised or defaulted here while LASFile.read compares it "
-                  "exactly (e.g. `DLM. Comma` is split on commas but still gets the comma-decimal-mark substitution)" % unparse(v))
+    NORMS = ("upper", "lower", "casefold", "strip", "lstrip", "rstrip", "title", "capitalize", "startswith")
+    # normalisations applied to the DLM value before the table lookup (through locals derived from the parameter)
+    derived_ = {dparam}
+    for _ in range(3):
+        for a_ in walk_shallow(ff.node):
+            if isinstance(a_, ast.Assign) and len(a_.targets) == 1 and isinstance(a_.targets[0], ast.Name) \
+                    and any(isinstance(x, ast.Name) and x.id in derived_ for x in ast.walk(a_.value)):
+                derived_.add(a_.targets[0].id)
+    lnorm = sorted({c.func.attr for a_ in walk_shallow(ff.node) if isinstance(a_, ast.Assign) and any(
+        isinstance(t, ast.Name) and t.id in derived_ for t in a_.targets) for c in ast.walk(a_.value)
+        if isinstance(c, ast.Call) and isinstance(c.func, ast.Attribute) and c.func.attr in NORMS} | {
+        c.func.attr for r_ in walk_shallow(ff.node) if isinstance(r_, ast.Return) and r_.value is not None for c in ast.walk(r_.value)
+        if isinstance(c, ast.Call) and isinstance(c.func, ast.Attribute) and c.func.attr in NORMS})
+    # normalisations applied where read() compares the DLM value with a delimiter name
+    rd_fi = host_data(p)
+    dl_vars = {s_.targets[0].id for s_ in walk_shallow(rd_fi.node) if isinstance(s_, ast.Assign) and len(s_.targets) == 1
+               and isinstance(s_.targets[0], ast.Name) and "DLM" in ast.unparse(s_.value)} | {
+        a.id for c in walk_shallow(rd_fi.node) if isinstance(c, ast.Call) and "define_line_splitter" in ast.unparse(c.func)
+        for a in c.args if isinstance(a, ast.Name)}
+    rnorm = sorted({c.func.attr for t_ in ast.walk(rd_fi.node) if isinstance(t_, ast.Compare)
+                    and any(isinstance(x, ast.Name) and x.id in dl_vars for x in ast.walk(t_))
+                    and any(isinstance(k, ast.Constant) and k.value in ("COMMA", "TAB", "SPACE") for k in ast.walk(t_))
+                    for c in ast.walk(t_) if isinstance(c, ast.Call) and isinstance(c.func, ast.Attribute) and c.func.attr in NORMS})
+    ctx.check(lnorm == rnorm, "DATA.SPLIT", "reader.define_line_splitter#lookup", ff, ff.node,
+              "the DLM value selects the splitter and the read policies under the same normalisation (%s)" % (lnorm or "none"),
+              "the splitter is looked up with the DLM value normalised by %s while LASFile.read compares it with the delimiter names %s: "
+              "e.g. `DLM. Comma` is split on commas but still gets the comma-decimal-mark substitution meant for other delimiters"
+              % (lnorm or "nothing", ("normalised by %s" % rnorm) if rnorm else "exactly"))
     keys = [k.value for k in table.keys]
     ctx.check(set(keys) == {"SPACE", "COMMA", "TAB"}, "DATA.SPLIT", "reader.define_line_splitter#vocabulary", ff, table,
               "splitter keys == the DLM vocabulary {SPACE, COMMA, TAB}",
